@@ -59,6 +59,9 @@ def replay_one(case):
     for mode in ("asis", "evaluated"):
         if mode == "evaluated" and exp_c == "err":
             continue   # SymPy's own evaluation may legitimately remove the offending node: nothing is required
+        if mode == "evaluated" and case.get("z"):
+            out.append((mode, "outside", "evaluated construction restructures around a computed zero/infinite intermediate"))
+            continue
         if mode == "evaluated" and "q0" in prog:
             # a zero-valued quantity is a positive symbol to SymPy: oo * q0 -> oo, 0 ** q0 -> 0 before the library sees it
             out.append((mode, "outside", "SymPy evaluates around a zero-valued quantity symbol"))
@@ -83,36 +86,36 @@ def replay_one(case):
             obs = ("refused", type(e).__name__, str(e)[:120])
         if exp_c == "err":
             if mode == "asis" and obs[0] != "refused":
-                out.append((mode, "violation", f"model refuses, code built scale={obs[1]} dim={obs[2]}"))
+                out.append((mode, "violation", f"model refuses, code built scale={qc_common.s_(obs[1])} dim={qc_common.s_(obs[2])}"))
             continue   # evaluated construction may legitimately have removed the offending node
         if obs[0] == "refused":
-            out.append((mode, "violation", f"model accepts ({exp_c}), code refused: {obs[1]}: {obs[2]}"))
+            out.append((mode, "violation", f"model accepts ({exp_c}), code refused: {qc_common.s_(obs[1])}: {qc_common.s_(obs[2])}"))
             continue
         cls, frac = qc_common.classify(obs[1])
         if exp_c in ("zero", "inf", "ninf", "nan"):
             if cls != exp_c:
-                out.append((mode, "violation", f"value class {cls} ({obs[1]}), model {exp_c}"))
+                out.append((mode, "violation", f"value class {cls} ({qc_common.s_(obs[1])}), model {exp_c}"))
             continue
         dim = qc_common.project_dim(obs[2])
         if dim != exp_d:
-            out.append((mode, "violation", f"dimension {obs[2]} -> {dim}, model {exp_d}"))
+            out.append((mode, "violation", f"dimension {qc_common.s_(obs[2])} -> {dim}, model {exp_d}"))
             continue
         cls, frac = qc_common.classify(qc_common.to_si(obs[1], dim))
         if exp_c == "irr":
             if cls not in ("irr", "float"):
-                out.append((mode, "violation", f"value class {cls} ({obs[1]}), model irrational finite"))
+                out.append((mode, "violation", f"value class {cls} ({qc_common.s_(obs[1])}), model irrational finite"))
             continue
         want = Fraction(exp_v[0], exp_v[1])
         if cls == "fin":
             got = frac
             if got != want:
-                out.append((mode, "violation", f"SI value {got} (scale {obs[1]}), model {want}"))
+                out.append((mode, "violation", f"SI value {got} (scale {qc_common.s_(obs[1])}), model {want}"))
         elif cls == "float":
             got = frac
             if abs(got - want) > abs(want) * Fraction(1, 10**9):
-                out.append((mode, "violation", f"SI value {float(got)} (scale {obs[1]}), model {want}"))
+                out.append((mode, "violation", f"SI value {float(got)} (scale {qc_common.s_(obs[1])}), model {want}"))
         else:
-            out.append((mode, "violation", f"value class {cls} ({obs[1]}), model {want}"))
+            out.append((mode, "violation", f"value class {cls} ({qc_common.s_(obs[1])}), model {want}"))
     return case, out
 
 
